@@ -439,6 +439,87 @@ def gen_session(rng, name, steps_lo=3, steps_hi=25, full_p=0.15):
 
 
 # --------------------------------------------------------------------------------------------------
+# spelling of the workspace: directory and file names with characters that need (or do not need) percent-encoding,
+# and the way the client spells its URIs
+# --------------------------------------------------------------------------------------------------
+WS_POOL = ["ws", "my project", "caf\u00e9_ws", "a#b", "50%done", "x+y&z", "Paren (1)", "ws%20enc",
+           "\u6f22\u5b57 \u00fc/Nested Dir/ws", "MiXed/CASE ws"]
+DECO_POOL = ["", "", " v2", "\u00e9", "#1", "%41", "+x", "&co", "(1)", "_\u00dc"]
+DDECO_POOL = ["", "", " dir", "\u00e9"]
+URI_STYLES = ["canonical", "canonical", "lower", "over", "localhost", "dot", "mixed"]
+# what url::Url::from_file_path leaves alone in a path segment (everything else of ASCII is percent-encoded, as are
+# all non-ASCII bytes): PATH_SEGMENT = controls, space, " # < > ? ` { } / %
+URI_SAFE = "/!$&'()*+,:;=@[]|^"
+
+
+def file_uri(path, style="canonical", rng=None):
+    """A file URI for an absolute path: canonical = the encoding of url::Url::from_file_path; the other styles are
+    legal spellings of the same URI (lower-case escapes, needlessly escaped characters, explicit localhost,
+    a `.` / `x/..` path component)."""
+    if style == "mixed":
+        style = (rng or random).choice(["canonical", "lower", "over", "localhost", "dot"])
+    if style == "dot":
+        head, tail = os.path.split(path)
+        path = head + "/./x/../" + tail
+    from urllib.parse import quote
+    q = quote(path, safe=URI_SAFE)
+    if style == "lower":
+        q = re.sub(r"%[0-9A-F]{2}", lambda m: m.group(0).lower(), q)
+    elif style == "over":
+        q = q.replace("+", "%2B").replace("&", "%26").replace("(", "%28").replace(")", "%29").replace("_", "%5f")
+        q = re.sub(r"v(?=hd$)", "%76", q)
+    return ("file://localhost" if style == "localhost" else "file://") + q
+
+
+def spell_path(rel, sp, pattern=False):
+    parts = rel.split("/")
+    dirs = [p + sp["ddeco"] for p in parts[:-1]]
+    base = parts[-1]
+    if base.endswith(".vhd") and not (pattern and "*" in base):
+        base = base[:-4] + sp["deco"] + ".vhd"
+    return "/".join(dirs + [base])
+
+
+def spell_config(cfg, sp):
+    new = json.loads(json.dumps(cfg))
+    if "libraries" in new:
+        new["libraries"] = {n: [spell_path(p, sp, pattern=True) for p in pats] for n, pats in new["libraries"].items()}
+    return new
+
+
+def spell_session(sess, sp):
+    """The same session in a workspace whose directory / file names are decorated from the pools."""
+    out = json.loads(json.dumps(sess))
+    out["name"] = "%s @ %s|%s|%s|%s" % (sess.get("name"), sp["ws"], sp["deco"], sp["ddeco"], sp["uri_style"])
+    out["ws"] = sp["ws"]
+    out["uri_style"] = sp["uri_style"]
+    out["files"] = {spell_path(k, sp): v for k, v in sess["files"].items()}
+    out["config"] = spell_config(sess["config"], sp)
+    for st in out["steps"]:
+        for key in ("path", "from", "to"):
+            if key in st:
+                st[key] = spell_path(st[key], sp)
+        if "config" in st:
+            st["config"] = spell_config(st["config"], sp)
+        if "events" in st:
+            st["events"] = [[spell_path(e, sp), t] for e, t in st["events"]]
+    return out
+
+
+def gen_spelling(rng):
+    return {"ws": rng.choice(WS_POOL), "deco": rng.choice(DECO_POOL), "ddeco": rng.choice(DDECO_POOL),
+            "uri_style": rng.choice(URI_STYLES)}
+
+
+def ls_initialize(ls, root_uri, caps):
+    """initialize / initialized with an explicitly spelled rootUri (vlib.lsp.LS.initialize sends the raw path)."""
+    _resp, others = ls.call("initialize", {"processId": None, "rootUri": root_uri, "capabilities": caps}, 120.0)
+    ls.notify("initialized", {})
+    others += ls.sync(120.0)
+    return others
+
+
+# --------------------------------------------------------------------------------------------------
 # running one session against the binary
 # --------------------------------------------------------------------------------------------------
 def caps_of(rel):
@@ -460,11 +541,11 @@ def fresh_view(binpath, root, opens, rel, nolint, libs):
     env["RAYON_NUM_THREADS"] = "2"       # many short-lived servers run side by side
     ls = lsp.LS(binpath, root, libraries=libs, extra_args=(["--no-lint"] if nolint else []), env=env)
     try:
-        _resp, others = ls.initialize(caps=caps_of(rel))
+        others = ls_initialize(ls, file_uri(root), caps_of(rel))
         view = lsp.publish_map(others)
         for path, text in opens:
             ls.notify("textDocument/didOpen",
-                      {"textDocument": {"uri": lsp.uri(path), "languageId": "vhdl", "version": 0, "text": text}})
+                      {"textDocument": {"uri": file_uri(path), "languageId": "vhdl", "version": 0, "text": text}})
             lsp.publish_map(ls.sync(), view)
         ls.shutdown()
         return view
@@ -485,9 +566,9 @@ def std_libs_dir():
     return d
 
 
-def write_file(path, text):
+def write_file(path, text, encoding="latin-1"):
     os.makedirs(os.path.dirname(path), exist_ok=True)
-    with open(path, "w", encoding="latin-1", newline="") as f:
+    with open(path, "w", encoding=encoding, newline="") as f:
         f.write(text)
 
 
@@ -498,14 +579,20 @@ def write_config(root, shadow, cfg):
             if os.path.exists(p):
                 os.remove(p)
         else:
-            write_file(p, toml_of(cfg, absolute_root=absolute, with_lint=lint))
+            write_file(p, toml_of(cfg, absolute_root=absolute, with_lint=lint), encoding="utf-8")
 
 
 def run_session(sess, binpath, wsdir, codes, stop_at=None):
     """Drives the live server through the session.  Returns a dict with one record per quiescent point:
        observed notifications, canonical client view, fresh view, raw fresh view, model events."""
-    root = wsdir
-    shadow = wsdir + ".raw"
+    root = os.path.join(wsdir, sess.get("ws", "ws"))
+    shadow = root + ".raw"
+    style = sess.get("uri_style", "canonical")
+    urng = random.Random(len(sess["steps"]) * 7919 + len(root))
+
+    def U(path):          # the client's spelling of the URI of a file
+        return file_uri(path, style, urng)
+
     for d in (root, shadow):
         shutil.rmtree(d, ignore_errors=True)
         os.makedirs(d)
@@ -561,7 +648,7 @@ def run_session(sess, binpath, wsdir, codes, stop_at=None):
         out["points"].append(rec)
 
     try:
-        _resp, others = live.initialize(caps=caps_of(rel))
+        others = ls_initialize(live, file_uri(root, "canonical" if style == "dot" else style, urng), caps_of(rel))
         quiescent(-1, None, others, True, False)
         for i, step in enumerate(sess["steps"]):
             if stop_at is not None and i > stop_at:
@@ -571,7 +658,7 @@ def run_session(sess, binpath, wsdir, codes, stop_at=None):
             if op == "open":
                 p = os.path.join(root, step["path"])
                 live.notify("textDocument/didOpen",
-                            {"textDocument": {"uri": lsp.uri(p), "languageId": "vhdl", "version": 0, "text": step["text"]}})
+                            {"textDocument": {"uri": U(p), "languageId": "vhdl", "version": 0, "text": step["text"]}})
                 opens.append((p, step["text"]))
                 if not member(cfg, step["path"]) and step["path"] not in known:
                     anon.add(step["path"])
@@ -587,7 +674,7 @@ def run_session(sess, binpath, wsdir, codes, stop_at=None):
                         chs.append({"range": {"start": {"line": l1, "character": c1}, "end": {"line": l2, "character": c2}},
                                     "text": c["text"]})
                 live.notify("textDocument/didChange",
-                            {"textDocument": {"uri": lsp.uri(p), "version": i + 1}, "contentChanges": chs})
+                            {"textDocument": {"uri": U(p), "version": i + 1}, "contentChanges": chs})
                 opens[:] = [(q, step["result"] if q == p else t) for q, t in opens]
                 if not member(cfg, step["path"]) and step["path"] not in anon:
                     out["outside_edits"] += 1
@@ -599,30 +686,30 @@ def run_session(sess, binpath, wsdir, codes, stop_at=None):
                 if events is None:        # older replay files
                     events = [[CFG, 2]] + [[e, 2] for e in step.get("extra", [])]
                 live.notify("workspace/didChangeWatchedFiles",
-                            {"changes": [{"uri": lsp.uri(os.path.join(root, e)), "type": t} for e, t in events]})
+                            {"changes": [{"uri": U(os.path.join(root, e)), "type": t} for e, t in events]})
                 reload = True
             elif op == "watched":
                 events = step.get("events") or [[e, 2] for e in step.get("paths", [])]
                 live.notify("workspace/didChangeWatchedFiles",
-                            {"changes": [{"uri": lsp.uri(os.path.join(root, e)), "type": t} for e, t in events]})
+                            {"changes": [{"uri": U(os.path.join(root, e)), "type": t} for e, t in events]})
                 publishes = False
             elif op == "create":
                 write_file(os.path.join(root, step["path"]), step["text"])
                 disk.add(step["path"])
-                live.notify("workspace/didCreateFiles", {"files": [{"uri": lsp.uri(os.path.join(root, step["path"]))}]})
+                live.notify("workspace/didCreateFiles", {"files": [{"uri": U(os.path.join(root, step["path"]))}]})
                 reload = True
             elif op == "rename":
                 os.rename(os.path.join(root, step["from"]), os.path.join(root, step["to"]))
                 disk.discard(step["from"])
                 disk.add(step["to"])
                 live.notify("workspace/didRenameFiles",
-                            {"files": [{"oldUri": lsp.uri(os.path.join(root, step["from"])),
-                                        "newUri": lsp.uri(os.path.join(root, step["to"]))}]})
+                            {"files": [{"oldUri": U(os.path.join(root, step["from"])),
+                                        "newUri": U(os.path.join(root, step["to"]))}]})
                 reload = True
             elif op == "delete":
                 os.remove(os.path.join(root, step["path"]))
                 disk.discard(step["path"])
-                live.notify("workspace/didDeleteFiles", {"files": [{"uri": lsp.uri(os.path.join(root, step["path"]))}]})
+                live.notify("workspace/didDeleteFiles", {"files": [{"uri": U(os.path.join(root, step["path"]))}]})
                 reload = True
             else:
                 raise ValueError("unknown op %r" % op)
@@ -885,7 +972,7 @@ def judge(sess, run, predicted, points):
 
 
 def session_key(sess):
-    return hashlib.sha1(json.dumps({k: sess.get(k) for k in ("nolint", "rel", "libs", "files", "config", "steps")},
+    return hashlib.sha1(json.dumps({k: sess.get(k) for k in ("nolint", "rel", "libs", "ws", "uri_style", "files", "config", "steps")},
                                    sort_keys=True).encode()).hexdigest()
 
 
@@ -932,15 +1019,30 @@ def run_check(res, tier, replay, d):
         sessions.append(rp["session"])
     else:
         corpus = os.path.join(VERIF, "corpus", "C14.sessions.json")
+        srng = random.Random(seed() * 104729 + 17)
         if os.path.exists(corpus):
-            sessions += json.load(open(corpus))["sessions"]
+            # every corpus session runs as written and in three differently spelled workspaces (directory and file
+            # names that need percent-encoding, alternative URI spellings); the pools are walked round-robin
+            for k, cs in enumerate(json.load(open(corpus))["sessions"]):
+                sessions.append(cs)
+                for j in range(3):
+                    sp = {"ws": WS_POOL[1 + (3 * k + j + seed()) % (len(WS_POOL) - 1)],
+                          "deco": DECO_POOL[2 + (k + 3 * j + seed()) % (len(DECO_POOL) - 2)],
+                          "ddeco": DDECO_POOL[(k + j) % len(DDECO_POOL)],
+                          "uri_style": URI_STYLES[1 + (k + 2 * j + seed()) % (len(URI_STYLES) - 1)]}
+                    c2 = spell_session(cs, sp)
+                    c2["libs"] = "std"
+                    sessions.append(c2)
         n = 1500 if tier == "thorough" else 40
         hi = 25
         rng = random.Random(seed() * 7919 + (1 if tier == "thorough" else 0))
         for i in range(n):
             lo_hi = ((3, 8), (6, 14), (12, hi))[i % 3]
-            sessions.append(gen_session(random.Random(rng.getrandbits(64)), "gen-%d-%d" % (seed(), i), *lo_hi,
-                                        full_p=0.15 if tier == "thorough" else 0.04))
+            gs = gen_session(random.Random(rng.getrandbits(64)), "gen-%d-%d" % (seed(), i), *lo_hi,
+                             full_p=0.15 if tier == "thorough" else 0.04)
+            if srng.random() < 0.75:
+                gs = spell_session(gs, gen_spelling(srng))
+            sessions.append(gs)
 
     def work(ix):
         sess = sessions[ix]
@@ -1068,6 +1170,12 @@ def run_check(res, tier, replay, d):
     res.coverage["lint_values_written"] = lint_values
     res.coverage["watched_file_events"] = watched_types
     res.coverage["sessions_started_without_config"] = started_without_config
+    spell = {"workspace_dirs": {}, "uri_styles": {}}
+    for ix in runs:
+        w, u = sessions[ix].get("ws", "ws"), sessions[ix].get("uri_style", "canonical")
+        spell["workspace_dirs"][w] = spell["workspace_dirs"].get(w, 0) + 1
+        spell["uri_styles"][u] = spell["uri_styles"].get(u, 0) + 1
+    res.coverage["workspace_spellings"] = spell
     res.coverage["edits_of_documents_outside_any_library"] = sum(runs[ix]["outside_edits"] for ix in runs)
     res.coverage["documents_mapped_to_a_library_again_after_such_edits"] = sum(runs[ix]["reentries_after_outside_edit"] for ix in runs)
     res.coverage["outside_claim"] = outside
@@ -1088,7 +1196,10 @@ def run_check(res, tier, replay, d):
         "is_third_party toggled / a file moved to a library of its own, also as reloads that add no file / broken or missing "
         "vhdl_ls.toml, 12% of the servers start without vhdl_ls.toml), every FileChangeType for the configuration file "
         "(Created after a start without it, Deleted, Changed, Created alone, Deleted+Created in one notification), "
-        "mixed batches with events of all three types for other files; open documents leave the project by a configuration "
+        "mixed batches with events of all three types for other files; workspace directory / sub-directory / file names drawn from "
+        "pools with spaces, non-ASCII letters, # % + & ( ) %41 %20, mixed case and nested directories, client URIs in the canonical "
+        "encoding or as lower-case escapes / needless escapes / file://localhost / with . and x/.. components (fresh servers are "
+        "always addressed canonically); every corpus session also runs in three such workspaces; open documents leave the project by a configuration "
         "rewrite or are opened outside it, are edited (ranged / full text) while in no library and are mapped to the same or "
         "another library again, 5% --no-lint, 40% clients without relatedInformation.  A session is non-trivial when the client "
         "view changed at two or more quiescent points; distinct by hash of the session")
